@@ -129,69 +129,44 @@ Qed.
 (* ================================================================== *)
 (** * 2. Reading the commit text back *)
 
-Lemma drop_cr_nil : drop_cr [] = [].
-Proof. reflexivity. Qed.
-
-Lemma drop_cr_app : forall p a,
-  p <> [] -> last p x00 <> c_cr -> drop_cr (p ++ a) = p ++ drop_cr a.
-Proof.
-  intros p a Hp Hl. destruct (rev a) as [|x r] eqn:E.
-  - assert (Ha : a = []) by (rewrite <- (rev_involutive a), E; reflexivity). subst a.
-    rewrite drop_cr_nil, app_nil_r. apply drop_cr_id. right. exact Hl.
-  - unfold drop_cr. rewrite rev_app_distr, E. cbn [app].
-    destruct (beqb x c_cr).
-    + rewrite rev_app_distr, rev_involutive. reflexivity.
-    + reflexivity.
-Qed.
-
-Lemma scan_sign_line_cr : forall p a rest,
-  contains_byte c_nl p = false -> p <> [] -> last p x00 <> c_cr -> ~ In c_nl a ->
-  scan_lines (p ++ a ++ [c_nl] ++ rest) = (p ++ drop_cr a) :: scan_lines rest.
-Proof.
-  intros p a rest Hp Hne Hl Ha.
-  rewrite app_assoc. change ([c_nl] ++ rest) with (c_nl :: rest). unfold scan_lines.
-  rewrite scan_lines_aux_app_nl by (apply notin_app; assumption).
-  cbn [rev app]. rewrite drop_cr_app by assumption. reflexivity.
-Qed.
-
 (* Whatever the signature line is, as long as it has no line feed: if the
    text [commit_text] formats reads back at all, it reads back with the tree
-   and the parent that were written, the same author and committer, and the
-   message as the line scanner returns it. *)
+   and the parent that were written, the same author and committer (the line
+   as written, read by [read_sign]), and the message that was given, byte
+   for byte. *)
 Theorem parse_commit_shape : forall tree parent sg msg cm,
   length tree = 20 -> (forall p, parent = Some p -> length p = 20) -> ~ In c_nl sg ->
   parse_commit (commit_text tree (option_map hex parent) sg sg msg) = Some cm ->
-  exists s, read_sign (drop_cr sg) = Some s /\
-    cm = mkCommit tree (parent_list parent) (Some s) (Some s)
-                  (join [c_nl] (scan_lines (msg ++ [c_nl]))).
+  exists s, read_sign sg = Some s /\
+    cm = mkCommit tree (parent_list parent) (Some s) (Some s) msg.
 Proof.
   intros tree parent sg msg cm Htree Hparent Hsg H.
   unfold parse_commit, commit_text in H.
-  rewrite (scan_hex_line (str "tree ") tree _ eq_refl eq_refl) in H.
+  rewrite (lf_hex_line (str "tree ") tree _ eq_refl) in H.
   rewrite parse_headers_tree, (read_hash_hex tree Htree) in H.
   cbn [c_tree c_parents c_author c_committer c_msg] in H.
   assert (Hrest : forall c0,
-    match parse_headers (scan_lines (str "author " ++ sg ++ [c_nl] ++ str "committer " ++ sg ++ [c_nl]
-                                     ++ [c_nl] ++ msg ++ [c_nl])) c0 with
+    match parse_headers (lf_lines (str "author " ++ sg ++ [c_nl] ++ str "committer " ++ sg ++ [c_nl]
+                                   ++ [c_nl] ++ msg ++ [c_nl])) c0 with
     | Some (c1, ml) => Some (mkCommit (c_tree c1) (c_parents c1) (c_author c1) (c_committer c1) (join [c_nl] ml))
     | None => None
     end = Some cm ->
-    exists s, read_sign (drop_cr sg) = Some s /\
-      cm = mkCommit (c_tree c0) (c_parents c0) (Some s) (Some s) (join [c_nl] (scan_lines (msg ++ [c_nl])))).
+    exists s, read_sign sg = Some s /\
+      cm = mkCommit (c_tree c0) (c_parents c0) (Some s) (Some s) msg).
   { intros c0 H0.
-    rewrite (scan_sign_line_cr (str "author ") sg _ eq_refl) in H0; [|discriminate|discriminate|exact Hsg].
+    rewrite (lf_sign_line (str "author ") sg _ eq_refl Hsg) in H0.
     rewrite parse_headers_author in H0.
-    destruct (read_sign (drop_cr sg)) as [s|] eqn:Es; [|discriminate H0].
-    rewrite (scan_sign_line_cr (str "committer ") sg _ eq_refl) in H0; [|discriminate|discriminate|exact Hsg].
+    destruct (read_sign sg) as [s|] eqn:Es; [|discriminate H0].
+    rewrite (lf_sign_line (str "committer ") sg _ eq_refl Hsg) in H0.
     rewrite parse_headers_committer, Es in H0.
     cbn [c_tree c_parents c_author c_committer c_msg] in H0.
-    change ([c_nl] ++ msg ++ [c_nl]) with ([] ++ c_nl :: (msg ++ [c_nl])) in H0.
-    rewrite (scan_lines_app_nl [] (msg ++ [c_nl]) (fun X => X) (or_introl eq_refl)) in H0.
+    rewrite lf_blank_msg in H0.
     rewrite parse_headers_blank in H0. cbn [c_tree c_parents c_author c_committer c_msg] in H0.
+    rewrite msg_lines in H0.
     injection H0 as <-. exists s. split; reflexivity. }
   destruct parent as [p|]; cbn [option_map parent_list] in *.
   - rewrite <- !app_assoc in H.
-    rewrite (scan_hex_line (str "parent ") p _ eq_refl eq_refl) in H.
+    rewrite (lf_hex_line (str "parent ") p _ eq_refl) in H.
     rewrite parse_headers_parent, (read_hash_hex p (Hparent p eq_refl)) in H.
     cbn [c_tree c_parents c_author c_committer c_msg] in H.
     exact (Hrest _ H).
@@ -337,8 +312,8 @@ Theorem commit_spec_fields : forall e c msg w root cm,
   c_tree cm = obj_id KTree root /\
   c_parents cm = parent_list (tip_of w) /\
   c_author cm = c_committer cm /\
-  (exists s, read_sign (drop_cr (commit_sign e c)) = Some s /\ c_author cm = Some s) /\
-  c_msg cm = join [c_nl] (scan_lines (msg ++ [c_nl])).
+  (exists s, read_sign (commit_sign e c) = Some s /\ c_author cm = Some s) /\
+  c_msg cm = msg.
 Proof.
   intros e c msg w root cm Hp Hnl Htip. unfold commit_data in Hp.
   destruct (parse_commit_shape _ _ _ _ _ (sha1_length _) Htip Hnl Hp) as (s & Hs & ->).
@@ -395,8 +370,8 @@ Proof.
   - exact (dec2_nl _ H).
 Qed.
 
-(* (d) with a well-formed identity, a positive time, a whole-minute zone
-   offset and a message without carriage return, the text DOES read back, and
+(* (d) with a well-formed identity, a positive time and a whole-minute zone
+   offset, the text DOES read back, whatever the message, and
    as exactly this commit: author and committer are the same configured
    person at the same instant, the message is the one given *)
 Definition commit_of (e : env) (c : ctx) (msg : bytes) (w : world) (root : bytes) : commit :=
@@ -405,11 +380,10 @@ Definition commit_of (e : env) (c : ctx) (msg : bytes) (w : world) (root : bytes
 
 Theorem commit_parses : forall e c msg w root,
   sign_ok (user_name (x_l c) (x_g c)) (user_email (x_l c) (x_g c)) (e_time e) (e_off e) ->
-  msg_ok msg ->
   (forall tip, tip_of w = Some tip -> length tip = 20) ->
   parse_commit (commit_data e c msg w root) = Some (commit_of e c msg w root).
 Proof.
-  intros e c msg w root Hs Hm Htip. unfold commit_data, commit_sign, commit_of.
+  intros e c msg w root Hs Htip. unfold commit_data, commit_sign, commit_of.
   apply commit_roundtrip; try assumption. apply sha1_length.
 Qed.
 
@@ -444,7 +418,7 @@ Record commit_post (e : env) (c : ctx) (msg : bytes) (w : world) (root : bytes) 
   (* (d) one person, one message *)
   cp_same : c_author cm = c_committer cm;
   cp_signed : exists s, c_author cm = Some s;
-  cp_msg : c_msg cm = join [c_nl] (scan_lines (msg ++ [c_nl]));
+  cp_msg : c_msg cm = msg;
   (* (b), (c): unless a SHA-1 collision was met *)
   cp_kept : w_coll w' = false -> objs_kept w w';
   cp_snapshot : w_coll w' = false ->
@@ -498,7 +472,6 @@ Theorem commit_spec_ok : forall e c msg w root subs,
   (forall d, In d (subs ++ [root]) -> (lenN d < 2 ^ 63)%N) ->
   (lenN (commit_data e c msg w root) < 2 ^ 63)%N ->
   sign_ok (user_name (x_l c) (x_g c)) (user_email (x_l c) (x_g c)) (e_time e) (e_off e) ->
-  msg_ok msg ->
   (forall tip, tip_of w = Some tip -> length tip = 20) ->
   head_ok w c ->
   let tr := do_commit_trace e c msg w root subs in
@@ -507,9 +480,9 @@ Theorem commit_spec_ok : forall e c msg w root subs,
   commit_post e c msg w root (commit_of e c msg w root) w' /\
   c_msg (commit_of e c msg w root) = msg.
 Proof.
-  intros e c msg w root subs Hv Hw Hsz Hszc Hs Hm Htip Hh tr w'.
+  intros e c msg w root subs Hv Hw Hsz Hszc Hs Htip Hh tr w'.
   destruct (commit_spec e c msg w root subs (commit_of e c msg w root) Hv Hw Hsz Hszc
-              (commit_parses e c msg w root Hs Hm Htip) (sign_ok_nl e c Hs) Htip Hh) as [Hr Hpost].
+              (commit_parses e c msg w root Hs Htip) (sign_ok_nl e c Hs) Htip Hh) as [Hr Hpost].
   split; [exact Hr|]. split; [exact Hpost | reflexivity].
 Qed.
 
@@ -745,9 +718,6 @@ Proof.
   cbn [e_time e_off ex_env]. split; [lia|]. split; [lia | reflexivity].
 Qed.
 
-Example ex_msg_ok : msg_ok ex_msg.
-Proof. apply contains_byte_false. vm_compute. reflexivity. Qed.
-
 Example ex_gate : gate_open ex_w ex_c.
 Proof. split; [vm_compute; reflexivity|]. vm_compute. discriminate. Qed.
 
@@ -772,9 +742,9 @@ Proof.
     + exact ex_gate.
     + exact ex_new_branch.
     + exact ex_tree.
-    + apply commit_parses; [exact ex_sign_ok | exact ex_msg_ok | exact ex_tip].
+    + apply commit_parses; [exact ex_sign_ok | exact ex_tip].
   - apply (commit_spec_ok ex_env ex_c ex_msg ex_w ex_root ex_subs ex_valid ex_tree ex_sizes ex_size_commit
-             ex_sign_ok ex_msg_ok ex_tip (head_ok_loaded ex_w ex_c ex_ctx ex_new_branch)).
+             ex_sign_ok ex_tip (head_ok_loaded ex_w ex_c ex_ctx ex_new_branch)).
 Qed.
 
 (* and by plain computation: the step answers Ok with seven effects (two
